@@ -21,6 +21,12 @@ RULE = ("every suite id in CipherSuite.ietfNames x every protocol version x "
         "length that the IANA *name* denotes, using independent references), "
         "the record expansion and the names reported by the accessors are "
         "compared with the name's meaning; a suite negotiated in a version "
+        "Also: servers with several key pairs, every server key type, a "
+        "ServerHello naming a foreign suite, TLS 1.3 secret lengths / "
+        "exporter / next key generation / post-handshake Finished under "
+        "the suite's hash, sessions offered again to a server limited "
+        "to a lower version, every calc_key call of the handshake "
+        "recomputed (finite-field secrets of odd length included).   "
         "that does not define it is a violation. distinct_nontrivial = "
         "distinct (suite, version, EtM, role) cells judged.")
 ASSUMPTIONS = [
